@@ -73,6 +73,9 @@ func runNBRandom(w *rt.World, res *hx.Result, kind int) *hx.Violation {
 	churnOn := hx.G(3) != 0
 	churnRounds := 1 + hx.G(3)
 	churnNoise := hx.G(2) == 0 // refused two-record registrations between the steps
+	claimOn := hx.G(3) == 0
+	claimN := 2 + hx.G(2)
+	claimTCP := hx.G(2) == 0
 	defendOn := hx.G(3) == 0
 	defendN := 2 + hx.G(10)
 	churnTCP := kind == 2 && hx.G(2) == 0
@@ -309,6 +312,29 @@ func runNBRandom(w *rt.World, res *hx.Result, kind int) *hx.Violation {
 		}
 		rt.Probe(PDefenders)
 	}
+	// claimers: nodes on different hosts register the same fresh unique name at the same moment; the server may tell
+	// at most one of them that the name is theirs, and the one it told is the owner afterwards
+	var claimTasks []*rt.Task
+	var claimRc [3]int
+	if claimOn {
+		for c := 0; c < claimN; c++ {
+			c := c
+			claimRc[c] = -1
+			claimTasks = append(claimTasks, rt.GoHarness(fmt.Sprintf("claimer%d", c), fmt.Sprintf("10.0.4.%d", c+1), func() {
+				req := buildRequest(uint16(0x6600+c), 5, 0, nil, claimName, net.IP{10, 0, 4, byte(c + 1)}, 86400, false)
+				var resp []byte
+				if kind == 2 && claimTCP {
+					resp = tcpExchange(req, 3*time.Second)
+				} else {
+					resp = udpExchange(req, 3*time.Second)
+				}
+				if resp != nil && len(resp) >= 2 && binary.BigEndian.Uint16(resp) == uint16(0x6600+c) {
+					claimRc[c] = parseResponse(resp).rcode
+				}
+			}))
+		}
+		rt.Probe(PClaimers)
+	}
 	churnReliable := true
 	if churnOn {
 		tasks = append(tasks, rt.GoHarness("churner", "10.0.1.200", func() {
@@ -366,6 +392,26 @@ func runNBRandom(w *rt.World, res *hx.Result, kind int) *hx.Violation {
 	for _, t := range defTasks {
 		rt.Join(t, -1)
 	}
+	for _, t := range claimTasks {
+		rt.Join(t, -1)
+	}
+	if claimOn && !stoppedEarly {
+		acked, answered := -1, 0
+		for c := 0; c < claimN; c++ {
+			if claimRc[c] >= 0 {
+				answered++
+			}
+			if claimRc[c] == 0 {
+				if acked >= 0 {
+					return &hx.Violation{Class: "wrong_answer", Key: sysName + "/claimed-twice",
+						Msg: fmt.Sprintf("nodes 10.0.4.%d and 10.0.4.%d registered the unique name %s at the same moment and both were told it is theirs (rcode 0)", acked+1, c+1, claimName)}
+				}
+				acked = c
+			}
+		}
+		_ = answered
+	}
+
 	for _, b := range defBads {
 		if b != "" {
 			return &hx.Violation{Class: "wrong_answer", Key: sysName + "/defend-name", Msg: b}
@@ -780,6 +826,7 @@ var churnCycle = [...]struct{ op, m int }{{6, 0}, {5, 0}, {6, 1}, {5, 1}, {6, 2}
 // churnNoiseReq: one registration request with two records -- the churn group for a node that is a member of it right
 // now, and a unique name held by another node. The second record must be refused; whatever the server does about the
 // first, that member's existing membership is not the request's to take away.
+const claimName = "CLAIMEDNAME"
 const churnUniq = "CHURNUNIQ"
 
 var churnUniqIP = net.IP{10, 9, 0, 9}
